@@ -1,6 +1,7 @@
 package props
 
 import (
+	"math"
 	"errors"
 	"fmt"
 	"os"
@@ -18,6 +19,16 @@ type tItem struct {
 	K    string `json:"k,omitempty"`
 	K2   string `json:"k2,omitempty"`
 	Veto bool   `json:"veto,omitempty"`
+	// F is only set (to NaN) to build a value that encoding/json cannot encode.
+	F float64 `json:"f,omitempty"`
+}
+
+// mkUnencodable builds a value of the store's type that cannot be marshalled.
+func mkUnencodable(typed bool, u, k string) interface{} {
+	if typed {
+		return tItem{U: u, K: k, F: math.NaN()}
+	}
+	return map[string]interface{}{"u": u, "k": k, "f": math.NaN()}
 }
 
 // mkValue builds a store value of the store's type.
